@@ -241,11 +241,11 @@ impl Peer {
     }
 
     pub fn send(&self, frames: &[Vec<u8>]) {
-        self.conn.feed(&rc::message(frames));
+        self.conn.feed(&rc::message_as_peer(frames));
     }
 
     pub fn send_held(&self, frames: &[Vec<u8>]) {
-        self.conn.feed_held(&rc::message(frames));
+        self.conn.feed_held(&rc::message_as_peer(frames));
     }
 
     /// Everything the library wrote after its handshake.
